@@ -594,6 +594,20 @@ pub fn declaration_variants() -> Vec<Vec<Item>> {
         Item::Multiclass { doc: vec![], name: "MAfter".into(), targs: vec![TArg { ty: Ty::Int, name: "mt0".into(), default: None }], parents: vec![], body: vec![Item::Def { doc: vec![], blank: false, name: Some("_x".into()), parents: vec![CRef::with("P", vec![id("mt0")])], body: None }] },
         Item::Def { doc: vec![], blank: false, name: Some("after".into()), parents: vec![CRef::with("C", vec![])], body: None },
     ]);
+    // the same name declared more than once: every declaration is an entry of the outline
+    let pdef = |n: &str, a: i64| Item::Def { doc: vec![], blank: false, name: Some(n.into()), parents: vec![CRef::with("P", vec![int(a)])], body: None };
+    out.push(vec![
+        base.clone(),
+        Item::Multiclass { doc: vec![], name: "M1".into(), targs: vec![], parents: vec![], body: vec![pdef("rr", 1), pdef("ri", 2)] },
+        Item::Multiclass { doc: vec![], name: "M2".into(), targs: vec![], parents: vec![], body: vec![pdef("rr", 3), pdef("ri", 4)] },
+    ]);
+    out.push(vec![base.clone(), Item::If { cond: E::Bool(true), then: vec![pdef("Reg", 1)], then_braces: true, els: Some(vec![pdef("Reg", 2)]) }, pdef("after", 3)]);
+    out.push(vec![
+        base.clone(),
+        Item::Class { doc: vec![], blank: false, name: "Fwd".into(), targs: vec![], parents: vec![], body: None },
+        Item::Class { doc: vec![], blank: false, name: "Fwd".into(), targs: vec![TArg { ty: Ty::Int, name: "a".into(), default: None }], parents: vec![], body: Some(vec![field(Ty::Int, "f", Some(id("a")), &[], false)]) },
+        pdef("after", 3),
+    ]);
     // defsets: empty, with named and anonymous defs, with a class, nested
     let d = |n: &str| Item::Def { doc: vec![], blank: false, name: Some(n.into()), parents: vec![CRef::with("P", vec![int(1)])], body: None };
     let anon = Item::Def { doc: vec![], blank: false, name: None, parents: vec![CRef::with("P", vec![int(2)])], body: None };
@@ -767,6 +781,8 @@ pub fn hover_programs(mut f: impl FnMut(&Program) -> bool) {
                             BI::Field { doc: d.clone(), blank, ty: Ty::Int, name: "f".into(), init: Some(id("a")) },
                             BI::Field { doc: vec![], blank: false, ty: Ty::List(Box::new(Ty::Str)), name: "g".into(), init: Some(E::List(vec![id("b")])) },
                             BI::Field { doc: docs(1), blank: false, ty: Ty::Bits(2), name: "h".into(), init: Some(id("c")) },
+                            // a name of several characters: a request range can end inside it
+                            BI::Field { doc: vec![], blank: false, ty: Ty::Int, name: "width".into(), init: Some(int(1)) },
                         ]),
                     };
                     let all_args = [int(1), E::Str("s".into()), E::Bits(vec![int(1), int(0)])];
@@ -789,7 +805,7 @@ pub fn hover_programs(mut f: impl FnMut(&Program) -> bool) {
                                 BI::Let { name: "g".into(), value: E::List(vec![]) },
                             ]),
                         },
-                        Item::Def { doc: d.clone(), blank, name: Some("x".into()), parents: vec![cref.clone()], body: Some(vec![BI::Let { name: "h".into(), value: E::Bits(vec![int(1), int(1)]) }]) },
+                        Item::Def { doc: d.clone(), blank, name: Some("x".into()), parents: vec![cref.clone()], body: Some(vec![BI::Let { name: "h".into(), value: E::Bits(vec![int(1), int(1)]) }, BI::Let { name: "width".into(), value: int(3) }]) },
                         Item::Multiclass {
                             doc: d.clone(),
                             name: "M".into(),
